@@ -437,14 +437,14 @@ func init() {
 			}
 		}})
 
-	register(&Obligation{ID: "C07.h", Props: []string{"C07", "C19", "C06"}, Template: "binary-search-consistency",
+	register(&Obligation{ID: "C07.h", Props: []string{"C07", "C19", "C06", "C03"}, Template: "binary-search-consistency",
 		Desc: "sliceu.SearchUnique narrows one consistent interval convention (half-open: low<high with high=mid; or closed: low<=high with high=mid-1 and high initialised to len-1)",
 		Run: func(r *Run) {
 			f := r.P.Func("util/sliceu", "SearchUnique")
 			r.checkBinarySearch(f)
 		}})
 
-	register(&Obligation{ID: "C07.i", Props: []string{"C07", "C17"}, Template: "order-domain",
+	register(&Obligation{ID: "C07.i", Props: []string{"C07", "C17", "C03"}, Template: "order-domain",
 		Desc: "sst.(*Table).RangeContainsKey is start <= key <= end; RangeKeyCompare is the three-way position of the key relative to [start,end]",
 		Run: func(r *Run) {
 			names := map[string]string{"t.startKey": "start", "t.endKey": "end", "key": "key"}
